@@ -54,6 +54,8 @@ def gen_cases(rng, tier):
     grids = {"nr": rng.choice([3, 5, 9, 21, 40]), "nrho": rng.choice([2, 3, 5, 9])} if target == "excel_eam_fs" else None
     model = spec.gen_eam_model(rng, "fs", groute, target=target, unique_density=unique, grids=grids,
                                nspecies=rng.choice([1, 2, 2, 3, 3, 4]), with_forms=not unique)
+    if i % 12 == 9:
+      model = spec.long_labels(rng, model)          # 'Zirconium_a' / 'Zirconium_b': labels alike in their first 8 and 12 characters
     if i % 12 == 7:
       model = spec.numeric_species(rng, model)      # species labelled '9', '10', '2', '100'
     if i % 12 == 3 and groute == "potable":
